@@ -35,6 +35,9 @@ FILENAMES = ["f.txt", "my file.bin", 'q"uote.png', "se;mi.txt", "b\\s.txt",
              "\u00fc\u0148\u00ed.dat", "C:\\dir\\x.doc", "a=b.c",
              "\u6587\u4ef6.pdf", "..\\..\\up", "trail.", " x ",
              "C:\\dir\\", 'e"\\', "\\\\",
+             # names that are not in a Unicode normal form of their own:
+             # combining sequences, a compatibility singleton
+             "re\u0301sume\u0301.txt", "A\u030angstro\u0308m", "\u2126.bin",
              # a file input nothing was selected for: filename=""
              "", ""]
 CTYPES = [None, None, "text/plain", "application/octet-stream", "image/png",
